@@ -290,3 +290,23 @@ Proof.
     split; [exact KR|]. split; [|reflexivity]. apply (dates_interval c y m Ex k KR). lia.
   - intros (k & KR & I & ->). exists k. split; [reflexivity|]. apply ri_seq_in. apply (dates_interval c y m Ex k KR) in I. lia.
 Qed.
+
+(* nth_date of any month shape the API returns: the date of day (month_base + k - 1), whose label is the k-th
+   existing day of that month, when that day number is a 32-bit number; None otherwise and outside 1..len *)
+Theorem nth_date_all c y m s k : ValidCal c -> in_i32 y -> in_u32 k -> Calendar_month_shape (cal_of c) y m = Ret (Some s) ->
+  MonthShape_nth_date s k =
+    Ret (if (1 <=? k) && (k <=? month_count c y (Month_discr m)) then day_or_none c (month_base c y m + k - 1) else None) /\
+  (1 <= k <= month_count c y (Month_discr m) ->
+     lbl c (month_base c y m + k - 1) = (y, Month_discr m, sh_nth (shape_of c y (Month_discr m)) k)).
+Proof.
+  intros V Hy Hk E. destruct (month_shape_some c y m s V Hy E) as [Ex ->]. split; [apply nth_date_closed; assumption|].
+  intros KR. pose proof (Month_discr_range m) as Mr. set (mz := Month_discr m) in *.
+  pose proof (shape_of_wf c y mz V Mr Ex) as W. pose proof (shape_of_len c y mz V Mr Ex) as Ln.
+  pose proof (sh_nth_in _ k W ltac:(lia)) as In.
+  destruct (ymd_inv c y mz (sh_nth (shape_of c y mz) k) k (jdn_of_ordinal c y (msum c y mz + k)) V Mr Ex In) as (EL & _); [symmetry; apply sh_ord_nth; [exact W|lia]|reflexivity|].
+  rewrite jdn_of_ordinal_closed in EL; [|exact V|].
+  - unfold month_base. fold mz. replace (ylo c y + msum c y mz + k - 1) with (ylo c y + (msum c y mz + k) - 1) by lia. exact EL.
+  - pose proof (msum_succ c y mz Mr) as S. rewrite <- msum_total.
+    pose proof (msum_le c y 1 mz ltac:(lia) ltac:(lia) ltac:(lia)). rewrite msum_1 in *.
+    pose proof (msum_le c y (mz + 1) 13 ltac:(lia) ltac:(lia) ltac:(lia)). lia.
+Qed.
